@@ -1328,8 +1328,13 @@ func (m *Machine) conv(tDst, tSrc types.Type, x Value) Value {
 			return string(rune(x))
 		case uint64:
 			return string(rune(x))
+		case SymInt:
+			// an ASCII code point converts to a one-byte string
+			if m.Branch(m.Ctx.And(m.Ctx.Le(m.Ctx.Int(0), x.T), m.Ctx.Lt(x.T, m.Ctx.Int(0x80))), "string(rune)-ascii") {
+				return &BStr{B: []Value{x}}
+			}
 		}
-		unsupported("string(symbolic integer)")
+		unsupported("string(symbolic non-ASCII integer)")
 	}
 	if iiDst, ok := intInfos[bDst.Kind()]; ok {
 		switch x := x.(type) {
